@@ -197,24 +197,14 @@ void of_mod2dense_copyrows     (of_mod2dense	*m,	/* Matrix to copy */
 			of_mod2dense_set (r, i, j, of_mod2dense_get (m, rows[i], j));
 		}
 #else
-		for (j = 0; j < of_mod2dense_cols (r); j++)
+		for (k = 0; k < m->n_words; k++)
 		{
-			if (rows[j] >= of_mod2dense_rows (m))
-			{
-				OF_PRINT_ERROR(("mod2dense_copycols: Column index out of range\n"))
-				OF_EXIT_FUNCTION
-				return;
-			}
-			for (k = 0; k < m->n_words; k++)
-			{
-				r->row[j][k] = m->row[rows[j]][k];
-			}
-			for (; k < r->n_words; k++)
-			{
-				r->row[j][k] = 0;
-			}
+			r->row[i][k] = m->row[rows[i]][k];
 		}
-
+		for (; k < r->n_words; k++)
+		{
+			r->row[i][k] = 0;
+		}
 #endif
 	}
 
